@@ -122,6 +122,7 @@ contract('matcher.BaseMatcher.createChildMatcher',
          inst=[CSLOT], fresh_result=True,
          ensures=[Clause('%s >= 0 and result.info == self.type._children[%s][1]' % (CSLOT, CSLOT),
                          carries='C01,C12', label='slot-found'),
+                  Clause("isa(result.info, 'info.SectionInfo')", label='slot-is-a-section-slot'),
                   Clause('allowed_name(self.type._children[%s][1].name, name)' % CSLOT, carries='C01', label='name-rule'),
                   Clause('result.type == type_ and result.name == name', label='child-for-that-type'),
                   Clause('result.handlers == self.handlers', carries='C16', label='shares-the-handler-list'),
@@ -129,6 +130,7 @@ contract('matcher.BaseMatcher.createChildMatcher',
                   Clause('forall(lambda i: implies(0 <= i and i < len(type_._children), '
                          'slot_empty(type_._children[i][1], result._values)))', carries='C01,C02',
                          label='child-starts-empty')],
+         static_ensures=[Clause("isclass(result, 'matcher.SectionMatcher')", label='constructs-a-plain-section-matcher')],
          raises=[Raise('ZConfig.ConfigurationError',
                        when='%s < 0 or not allowed_name(self.type._children[%s][1].name, name)' % (CSLOT, CSLOT),
                        carries='C01,C12', label='no-slot-or-name-not-allowed')])
